@@ -131,6 +131,14 @@ impl TrainDisp {
                 // If the link cannot be exited, limit the new auth offset
                 if disp_auth_prev.offset_back.is_finite() {
                     self.offset_free = disp_node_curr.offset + disp_auth_prev.offset_back;
+                    // The sum is rounded, so the link offset that update_occupancy derives from it
+                    // (offset_free - disp_node_curr.offset) can come out larger than offset_back.
+                    // Then the sum was rounded up and the next value down is at or below the exact
+                    // sum, which keeps the front of this train at or before the back of the
+                    // previous train.
+                    while self.offset_free - disp_node_curr.offset > disp_auth_prev.offset_back {
+                        self.offset_free = uc::M * self.offset_free.get::<si::meter>().next_down();
+                    }
                     self.is_blocked = true;
                     // If the link cannot be entered, break
                     if disp_auth_prev.offset_back == si::Length::ZERO {
